@@ -48,7 +48,7 @@ template <class T, class Op>
 struct ObsOp {
   Op op;
   T operator()(const T& a, const T& b) const {
-    observe_value((uint32_t)b);
+    observe_value((uint32_t)(uint64_t)b);
     return op(a, b);
   }
 };
